@@ -51,7 +51,7 @@ LEVEL_TEXT = (
     "trial_budget_*); failures become inf records that never win (computeScore_total, "
     "some_finite_gives_winner); for any stack of post-processing wrappers the recorded flops/write/size are "
     "contract_stats() of the tree after the last mutation (wrapper_stats_fresh, record_costs_true_partial, "
-    "winner_costs_true). The model is tied to /repo on every run by equality correspondence on scripted "
+    "winner_costs_true), composed end to end in hyper_search_correct_serial/_parallel. The model is tied to /repo on every run by equality correspondence on scripted "
     "searches (serial / forced completion orders / thread pool / process pool), on the real wrapper stack "
     "over a mock tree, and by source-derived fact tables with closed obligations."
 )
@@ -87,6 +87,8 @@ THEOREMS = [
     "Cotengra.C08.computeScore_total",
     "Cotengra.C08.finite_score_has_tree",
     "Cotengra.C08.winner_costs_true",
+    "Cotengra.C08.hyper_search_correct_serial",
+    "Cotengra.C08.hyper_search_correct_parallel",
     "Cotengra.C08.figures_always_filled",
     "Cotengra.C08.setup_order_as_modelled",
     "Cotengra.C08.every_wrapper_updates",
